@@ -123,3 +123,8 @@ func AddUint32(p *uint32, d uint32) uint32 {
 	pt(unsafe.Pointer(p), "Add")
 	return atomic.AddUint32(p, d)
 }
+
+// Peek reads without being a scheduling point (for harness predicates evaluated by the scheduler).
+func (x *Int64) Peek() int64   { return x.v.Load() }
+func (x *Uint64) Peek() uint64 { return x.v.Load() }
+func (x *Bool) Peek() bool     { return x.v.Load() }
